@@ -152,6 +152,21 @@ pub fn modes(seed: u64, thorough: bool) -> Vec<BuildSpec> {
             }
         }
     }
+    // every byte value at the first, middle, last and a random position of longer strings (word-sized and odd lengths):
+    // only the outcome and the reported mode are judged for these
+    for &len in &[8usize, 9, 16, 17, 33] {
+        for filler in 0..2usize {
+            for b in 0..=255u8 {
+                for (pi, pos) in [0usize, len / 2, len - 1, r.gen_range(0..len)].into_iter().enumerate() {
+                    let mut p = payload(&mut r, filler, len, false);
+                    p[pos] = b;
+                    let mut s = spec(p, None, None, None, None, format!("bytelong:{len}:{pi}:{filler}"));
+                    s.lite = true;
+                    out.push(s);
+                }
+            }
+        }
+    }
     // class patterns: 0 = digit, 1 = alphanumeric but not digit, 2 = other
     let reps: [&[u8]; 3] = [b"0189", b"AZ $%*+-./:", b"az,#_\x00\x7f\x80\xff;@[`"];
     let maxlen = if thorough { 8 } else { 6 };
@@ -169,7 +184,7 @@ pub fn modes(seed: u64, thorough: bool) -> Vec<BuildSpec> {
         let n = r.gen_range(20..600);
         let mut p = payload(&mut r, base, n, false);
         match i % 4 {
-            0 | 1 => { let at = r.gen_range(0..n); p[at] = if base == 0 { reps[1 + (i / 4) % 2][r.gen_range(0..10)] } else { reps[2][r.gen_range(0..13)] }; }
+            0 | 1 => { let at = r.gen_range(0..n); p[at] = if base == 0 { let k = 1 + (i / 4) % 2; reps[k][r.gen_range(0..reps[k].len())] } else { reps[2][r.gen_range(0..reps[2].len())] }; }
             2 => { p[n - 1] = b'a'; }
             _ => {}
         }
